@@ -328,6 +328,17 @@ class CallMixin(StmtMixin):
         st_n = st.assume(*[Not(cd) for cd in conds if cd is not False])
         if conds and not self.feasible(st_n):
             return
+        if c.case_split is not None:
+            cases = c.case_split(env)
+            # the cases must be exhaustive: otherwise forking on them would lose behaviours
+            self.oblige(st_n, f"{c.key}.case-split-exhaustive", "pre", Or(*cases.values()), node)
+            for lab, cond in cases.items():
+                if self.feasible(st_n, cond if cond is not True else True):
+                    yield from self._apply_normal(st_n.assume(cond).with_note(f"L{line}:{lab}"), c, binds, env, node, line)
+            return
+        yield from self._apply_normal(st_n, c, binds, env, node, line)
+
+    def _apply_normal(self, st_n: State, c: Contract, binds: dict, env: Env, node: Any, line: int) -> Res:
         st_h = self.havoc_paths(st_n, c, binds)
         for tp in c.touches:
             tv = binds.get(tp)
